@@ -2,6 +2,7 @@
 
 P = {
     "id": "C08",
+    "claimed": False,  # flip to True once bin/check is green AND Properties/C08.v has real theorems
     "coq_targets": ["Properties/C08.vo", "Run/Eval_GoUrl.vo", "Run/Eval_C08.vo"],
     "theorems_module": "Properties.C08",
     "theorems": [],
